@@ -92,14 +92,8 @@ def run(ctx):
     _t(ctx, "model checking")
     # 2. spec -> code
     cases = ctx.path("cases.ndjson")
-    n = 0
-    gens = [("Gen_ObjectOps_d1.cfg", None), ("Gen_ObjectOps_d2.cfg", None)]
-    if not q:
-        gens.append(("Gen_ObjectOps_d3.cfg", None))
-    for cfg, _ in gens:
-        gr, k = ob.generate("Gen_ObjectOps", cfg, cases, append=(n > 0), timeout=3000, heap="8g")
-        ctx.add_tlc(gr)
-        n += k
+    gr, n = ob.generate("Gen_ObjectOps", "Gen_ObjectOps_%s.cfg" % suf, cases, timeout=3000, heap="8g")
+    ctx.add_tlc(gr)
     vlib.log("[C13] %d transitions (with histories) generated by TLC" % n)
     rep = vlib.run_driver("drv_ops", ["replay", "--cases", cases], env=ctx.env(), timeout=3000)
     report_replay(ctx, rep, "replay of TLC transitions")
